@@ -141,7 +141,6 @@ type TV struct {
 	T     string
 	Ty    types.Type
 	IsNil bool
-	IsSet bool // SMT (Array K Bool) typed as map[K]bool
 }
 
 func (vc *VC) warn(f string, a ...interface{}) {
@@ -246,17 +245,18 @@ func (vc *VC) fieldHeapSort(st types.Type, i int) string {
 
 func (vc *VC) arrHeap(elem types.Type) (string, string) {
 	s := vc.pre.sortOf(elem)
-	return "HA:" + s, "(Array Int (Array Int " + s + "))"
+	return "HA:" + heapTypeKey(elem), "(Array Int (Array Int " + s + "))"
 }
 
 func (vc *VC) cellHeap(t types.Type) (string, string) {
 	s := vc.pre.sortOf(t)
-	return "HV:" + s, "(Array Int " + s + ")"
+	return "HV:" + heapTypeKey(t), "(Array Int " + s + ")"
 }
 
 func (vc *VC) mapHeaps(mt *types.Map) (dn, ds, vn, vs string) {
 	k, v := vc.pre.sortOf(mt.Key()), vc.pre.sortOf(mt.Elem())
-	return "HMd:" + k + ":" + v, "(Array Int (Array " + k + " Bool))", "HMv:" + k + ":" + v, "(Array Int (Array " + k + " " + v + "))"
+	kk, vk := heapTypeKey(mt.Key()), heapTypeKey(mt.Elem())
+	return "HMd:" + kk + ":" + vk, "(Array Int (Array " + k + " Bool))", "HMv:" + kk + ":" + vk, "(Array Int (Array " + k + " " + v + "))"
 }
 
 func globalHeap(g *ssa.Global) string {
@@ -966,6 +966,20 @@ func (vc *VC) loopHeader(b *ssa.BasicBlock, li *loopInfo, entryPreds []*ssa.Basi
 			}
 		}
 	}
+	// visited keys of a map range are keys of the map (if the map is not written in the loop)
+	for _, ins := range b.Instrs {
+		if nx, ok := ins.(*ssa.Next); ok {
+			if ri, ok := vc.rangeIt[nx.Iter]; ok {
+				dn, ds, _, _ := vc.mapHeaps(ri.mt)
+				if !li.mods[dn] {
+					ks := vc.pre.sortOf(ri.mt.Key())
+					vis := vc.getH(vc.st, ri.visName, "(Array "+ks+" Bool)")
+					dom := fmt.Sprintf("(select %s %s)", vc.getH(vc.st, dn, ds), ri.m)
+					vc.assume(fmt.Sprintf("(forall ((j %s)) (! (=> (select %s j) (and (not (= %s 0)) (select %s j))) :pattern ((select %s j))))", ks, vis, ri.m, dom, vis))
+				}
+			}
+		}
+	}
 	// 3. assume invariants
 	for _, inv := range invs {
 		env := vc.loopEnv(b, vc.st, nil)
@@ -1620,6 +1634,7 @@ func (vc *VC) rangeStart(ins *ssa.Range) {
 	ksort := vc.pre.sortOf(mt.Key())
 	vc.pre.heap(ri.visName, "(Array "+ksort+" Bool)")
 	vc.st.h[ri.visName] = vc.define("vis", "(Array "+ksort+" Bool)", fmt.Sprintf("((as const (Array %s Bool)) false)", ksort))
+	vc.assume(fmt.Sprintf("(= (%s %s) 0)", vc.pre.cardFn("(Array "+ksort+" Bool)"), vc.st.h[ri.visName]))
 	vc.rangeIt[ins] = ri
 	vc.vals[ins] = "0"
 }
@@ -1649,8 +1664,26 @@ func (vc *VC) next(ins *ssa.Next) {
 	vc.assume(fmt.Sprintf("(=> (not %s) (or (= %s 0) (forall ((j %s)) (! (=> (select %s j) (select %s j)) :pattern ((select %s j))))))", okv, ri.m, ksort, dom, vis, dom))
 	vc.assumeRange(k, ri.mt.Key())
 	vc.assumeRange(v, ri.mt.Elem())
-	vc.setH(vc.st, ri.visName, vsort, fmt.Sprintf("(ite %s (store %s %s true) %s)", okv, vis, k, vis))
+	// when the iteration is over and the map was not written in the loop, the visited set IS the key set
+	if li := vc.loopOf(ins.Block()); li != nil && !li.mods[dn] {
+		vc.assume(fmt.Sprintf("(=> (not %s) (or (= %s 0) (= %s %s)))", okv, ri.m, vis, dom))
+	}
+	vc.setH(vc.st, ri.visName, vsort, fmt.Sprintf("(store %s %s true)", vis, k))
+	cardf := vc.pre.cardFn(vsort)
+	vc.assume(fmt.Sprintf("(=> %s (= (%s %s) (+ (%s %s) 1)))", okv, cardf, vc.getH(vc.st, ri.visName, vsort), cardf, vis))
+	vc.assume(fmt.Sprintf("(>= (%s %s) 0)", cardf, vis))
 	vc.tuples[ins] = []string{okv, k, v}
+}
+
+// loopOf returns the innermost loop containing block b (or nil).
+func (vc *VC) loopOf(b *ssa.BasicBlock) *loopInfo {
+	var best *loopInfo
+	for _, li := range vc.loops {
+		if li.body[b] && (best == nil || len(li.body) < len(best.body)) {
+			best = li
+		}
+	}
+	return best
 }
 
 func (vc *VC) runDefers() {
@@ -1718,7 +1751,7 @@ func (vc *VC) ret(ins *ssa.Return) {
 			vc.ghostAssign(env, ga, vc.st)
 		}
 		for _, e := range c.Ensures {
-			if !vc.clauseOn(e) {
+			if !vc.clauseOn(e) || e.Trusted {
 				continue
 			}
 			name := "[" + strings.Join(e.Labels, ",") + "]"
@@ -1768,6 +1801,11 @@ func (vc *VC) finish() {
 		used := false
 		for _, n := range specNames(ax.E) {
 			if vc.pre.funDone[q("gf:"+n)] {
+				used = true
+			}
+		}
+		for _, l := range ax.Labels {
+			if strings.HasPrefix(l, "use:") && vc.pre.funDone[q("gf:"+strings.TrimPrefix(l, "use:"))] {
 				used = true
 			}
 		}
